@@ -436,6 +436,39 @@ def huffman_property(out, q, seed, why_filter):
         os.remove(j)
 
 
+DICT_INV = ["RoundTrip", "RefuseExact", "RefusalNecessary", "DictSane", "CodedCostsOne"]
+
+
+def dict_jobs(out, name, scn, nslots):
+    wd = os.path.join(WORK, out.prop)
+    jobs = []
+    for prof in ("dev", "release"):
+        tr = os.path.join(wd, "%s.%s.ndjson" % (name, prof))
+        rc, o = sh([BIN[prof], "dict-run", scn, "--out", tr, "--nslots", str(nslots)], timeout=1800)
+        if rc != 0:
+            log(o[-2000:])
+            raise ToolError("dict-run failed")
+        jobs.append({"label": prof, "trace": tr, "scenarios": scn, "profile": profile_label(prof),
+                     "replay": "dictionary", "sigprefix": "dictionary"})
+    return jobs
+
+
+def dictionary_property(out, q, seed):
+    c = {"NSlots": 2, "MaxGen0": 2, "MaxMerge": 1 if q else 2, "MaxCoded": 2, "MaxClear": 1,
+         "StrSel": "quick" if q else "thorough", "Emit": True}
+    scn = stage_scenarios(out, "model", "DictMC.tla", c, DICT_INV, timeout=3000)
+    tcfg = os.path.join(SPEC, "TraceDict.cfg")
+    validate_traces(out, "model-traces", "TraceDict.tla", tcfg, dict_jobs(out, "model", scn, 2))
+    wd = os.path.join(WORK, out.prop)
+    g = os.path.join(wd, "random.scn")
+    rc, o = sh([BIN["release"], "dict-gen", "--seed", str(seed * 1000 + 7), "--count", str(36 if q else 240), "--out", g])
+    if rc != 0:
+        raise ToolError("dict-gen failed")
+    validate_traces(out, "random-traces", "TraceDict.tla", tcfg, dict_jobs(out, "random", g, 5), timeout=3000)
+    for j in glob.glob(os.path.join(wd, "*.ndjson")):
+        os.remove(j)
+
+
 # --------------------------------------------------------------------------------------------
 # property table
 
@@ -585,6 +618,8 @@ def run_property(prop, tier, seed):
         stack_stage(out, "flatstack", prop, stack_names(), 4, 0, 3, ["copy", "extend", "clear", "from_iter"])
     elif prop == "C20":
         region_stage(out, "forms", prop, allnames, 2, 3 if q else 4, 0, 3, ["push", "push_from"])
+    elif prop == "C07":
+        dictionary_property(out, q, seed)
     elif prop == "C06":
         huffman_property(out, q, seed, lambda w: not w.startswith("cmp"))
     else:
